@@ -2,7 +2,7 @@ SPECIFICATION Spec
 CONSTANTS
   FlagNames = {"a", "b", "c"}
   MaxTok = 3
-  LitChars = {39}
+  LitChars = {}
   Export = FALSE
 INVARIANT TypeOK
 INVARIANT AcyclicReachesExpansion
